@@ -3,6 +3,9 @@
 # usage: iv_c17_run.sh <repo> bid <root>
 #        iv_c17_run.sh <repo> binit <dir>
 #        iv_c17_run.sh <repo> logseq <builddir> (<step> <name>)...
+#        iv_c17_run.sh <repo> newinv <root>                    build_id; build_init as the entry scripts do
+#        iv_c17_run.sh <repo> lockacq <root> <builddir>        lock_acquire
+#        iv_c17_run.sh <repo> logenv <builddir> (A <step> <name> | P <kind> <path> | X <path>)...
 #   logseq: for every attempt prints the generated log name and then writes the
 #   attempt number into that file the way step_exec does (tee truncates).
 REPO=$1; op=$2; shift 2
@@ -24,6 +27,37 @@ logseq)
 		i=$((i + 1))
 		printf 'attempt %d\n' "$i" | tee "$b/${id}" >/dev/null
 		shift 2
+	done
+	;;
+newinv)
+	id="$(build_id "$1")"
+	printf '%s\n' "${id}"
+	build_init "$1/${id}"
+	echo "rc=$?"
+	;;
+lockacq)
+	_PROG=iv; lock_acquire "$1" "$2" >/dev/null 2>&1
+	echo "rc=$?"
+	;;
+logenv)
+	b=$1; shift
+	i=0
+	while [ $# -gt 0 ]; do
+		case "$1" in
+		A)	id="$(log_id -b "$b" -n "$3" -s "$2")"
+			printf '%s\n' "${id}"
+			i=$((i + 1))
+			printf 'attempt %d\n' "$i" | tee "$b/${id}" >/dev/null
+			shift 3;;
+		P)	case "$2" in
+			D)	mkdir -p "$b/$3";;
+			*)	mkdir -p "$(dirname "$b/$3")"; printf 'put\n' >"$b/$3";;
+			esac
+			shift 3;;
+		X)	rm -rf "${b:?}/$2"
+			shift 2;;
+		*)	exit 2;;
+		esac
 	done
 	;;
 esac
